@@ -54,3 +54,25 @@ func C10(tier string, seed uint64) int {
 		Assume: []string{"spill files are real files on a per-process tmpfs directory (no fault injection under the spiller: it uses package os directly)", "merge and reduce-merge inputs never return empty non-EOF reads (their buffers document an empty read as end of input)"}}
 	return b.Run()
 }
+
+// C15 — task stores are commit-atomic; remote reads resume exactly.
+func C15(tier string, seed uint64) int {
+	n, budget := compSizes(tier, 1500, 100, 60000, 900)
+	b := &CompBatch{Property: "C15", Engine: "storesim", Tier: tier, Seed: seed, Level: "fault_enumeration", N: n, BudgetS: budget,
+		Assume: []string{"porcupine results of Unknown (timeout) are counted as inconclusive, never reported", "the retry budget is read from the policy object at run time, not hard-coded"}}
+	return b.Run()
+}
+
+// C09 — combining buffers.
+func C09(tier string, seed uint64) int {
+	n, budget := compSizes(tier, 2500, 100, 150000, 900)
+	b := &CompBatch{Property: "C09", Engine: "combsim", Tier: tier, Seed: seed, Level: "exploration", N: n, BudgetS: budget,
+		ExtraPerProc: func(p int) []string {
+			chunk := []int{0, 1, 2, 4, 16, 64, 256, 8}[p%8]
+			if chunk == 0 {
+				return nil
+			}
+			return []string{fmt.Sprintf("VERIF_CHUNK=%d", chunk)}
+		}}
+	return b.Run()
+}
